@@ -3,7 +3,7 @@
 # Usage: confirm_seed.sh <name> <property> <patch.diff> <demo-dir> <notes.md>
 # Confirms: existing tests pass with the change; demo passes without and fails with it. Then runs the property's check on it.
 NAME=$1; PROP=$2; PATCH=$(readlink -f $3); DEMO=$(readlink -f $4); NOTES=$(readlink -f $5)
-case "$DEMO" in /verif/seeded/*) T=/var/tmp/seedin.$$; rm -rf $T; mkdir -p $T; cp -r "$DEMO" $T/demo; cp "$NOTES" $T/notes.md; cp "$PATCH" $T/patch.diff; DEMO=$T/demo; NOTES=$T/notes.md; PATCH=$T/patch.diff;; esac
+case "$DEMO" in /verif/seeded/*) T=/var/tmp/seedin.$$; rm -rf $T; mkdir -p $T; cp -r "$DEMO" $T/demo; cp "$NOTES" $T/notes.md; cp "$PATCH" $T/patch.diff; cp /verif/seeded/$NAME/meta.json $T/oldmeta.json 2>/dev/null; cp /verif/seeded/$NAME/patch.orig.diff $T/ 2>/dev/null; DEMO=$T/demo; NOTES=$T/notes.md; PATCH=$T/patch.diff;; esac
 S=/var/tmp/seed.$$; rm -rf $S; mkdir -p $S/verif
 export GOFLAGS=-mod=mod GOPROXY=off GOSUMDB=off GOTOOLCHAIN=local; unset GOWORK
 rsync -a --exclude .git --exclude fc/fc /repo/ $S/repo/
@@ -37,6 +37,16 @@ if [ $RC_CLEAN = 0 ] && [ $RC_BASE = 0 ] && [ $RC_MUT != 0 ]; then
  "check_output": $FAILS
 }
 META
+  if [ -f /var/tmp/seedin.$$/oldmeta.json ]; then
+    python3 - $D/meta.json /var/tmp/seedin.$$/oldmeta.json <<'PY'
+import json,sys
+n=json.load(open(sys.argv[1])); o=json.load(open(sys.argv[2]))
+for k in ('history','origin'):
+    if k in o: n[k]=o[k]
+json.dump(n,open(sys.argv[1],'w'),indent=1)
+PY
+    [ -f /var/tmp/seedin.$$/patch.orig.diff ] && cp /var/tmp/seedin.$$/patch.orig.diff $D/
+  fi
   echo "STORED $D (detected=$DET)"
 else
   echo "NOT CONFIRMED — not stored"; tail -5 $S/demo_clean.log; tail -5 $S/base.log; tail -5 $S/demo_mut.log
